@@ -143,3 +143,62 @@ func VerifEstablishShared() {
 	verifAssert(env.made["rs1:1"] == 1 && other.Client() != regs[0].Client(), "another address gets its own connection")
 	verifReach("established")
 }
+
+type vLateRC struct {
+	vRegionClient
+	onBatch func(cs []hrpc.Call)
+}
+
+func (r *vLateRC) QueueBatch(ctx context.Context, cs []hrpc.Call) { r.onBatch(cs) }
+
+// VerifLateFailureReport: a batch call was sent over connection #1; #1 dies, another caller
+// notices first and the region is re-established on a fresh connection #2; only then does
+// SendBatch process the failure of its own call. The late report concerns #1: the healthy #2
+// stays the connection of that regionserver and no third one is opened.
+func VerifLateFailureReport() {
+	c := vNewRootClient()
+	reg := vMkRegion(0, 1, nil, nil)
+	c.regions.put(reg)
+	made := 0
+	var conns []*vLateRC
+	factory := func() hrpc.RegionClient {
+		made++
+		rc := &vLateRC{}
+		rc.addr = "rs0:1"
+		n := made
+		rc.onBatch = func(cs []hrpc.Call) {
+			for _, cl := range cs {
+				if n == 1 {
+					// connection #1 died; somebody else already declared it dead and the
+					// region was re-established on a new connection
+					down := c.clients.clientDown(conns[0])
+					for r := range down {
+						r.SetClient(nil)
+					}
+					reg.SetClient(c.clients.put("rs0:1", reg, func() hrpc.RegionClient { return conns[len(conns)-1] }))
+					cl.ResultChan() <- hrpc.RPCResult{Error: region.ServerError{}}
+				} else {
+					cl.ResultChan() <- hrpc.RPCResult{}
+				}
+			}
+		}
+		conns = append(conns, rc)
+		return rc
+	}
+	establishRegionOverride = func(r hrpc.RegionInfo, addr string) {
+		r.SetClient(c.clients.put("rs0:1", r, factory))
+		r.MarkAvailable()
+	}
+	sleepAndIncreaseBackoffOverride = func(ctx context.Context, b time.Duration) (time.Duration, error) { return b, nil }
+	first := factory()
+	reg.SetClient(c.clients.put("rs0:1", reg, func() hrpc.RegionClient { return first }))
+	factory() // connection #2 exists by the time #1's failure is handled (see onBatch of #1)
+	p, _ := hrpc.NewPut(context.Background(), []byte("t"), []byte("k"), map[string]map[string][]byte{"f": {"q": []byte("v")}})
+	res, ok := c.SendBatch(context.Background(), []hrpc.Call{p})
+	verifQuiesce()
+	establishRegionOverride, sleepAndIncreaseBackoffOverride = nil, nil
+	verifAssert(ok && res[0].Error == nil, "the call succeeds on the replacement connection")
+	verifAssert(made == 2, "no further connection is opened: the failure report concerned the connection that was already replaced")
+	verifAssert(reg.Client() == hrpc.RegionClient(conns[1]), "the healthy replacement stays the region's connection")
+	verifReach("late-report")
+}
